@@ -4,6 +4,7 @@ from . import rtgen as R
 
 ID = "C09"
 THEOREMS = ['Portus.C09.other_datapaths_untouched', 'Portus.C09.commands_go_home', 'Portus.C02.ready_drops_only_that_address', 'Portus.Rt.step_ok']
+SPEC_IS_ORACLE = True  # the compared trace is what the property speaks about and is determined by the history
 KEEP = {"RX", "TX IN", "TX CP", "TX UF", "TX OT", "TXFAIL", "NF", "RP", "CL", "DR", "RES"}
 RELATION = 'full event trace (RX markers, sends with destination and flow id, callbacks) of RunBuilder::run'
 RULE = 'histories over 2..3 addresses forced to overlapping flow ids (1..4), commands issued from new_flow and from later on_report callbacks, restarts of one address while others have live flows. non-trivial = two addresses with a live flow of the same id at some point; distinct by case line'
